@@ -388,15 +388,16 @@ class VMNetconfig(object):
 
     def get_allocatable_address(self) -> str:
         """Return the next IP address in the pool of available IPs that can be used by DHCP clients in the network."""
+        net_ip = ipaddress.IPv4Address(str(self.net_ip))
         for val in self.range:
             if self.range[val] is False:
+                new_address = str(ipaddress.IPv4Address(str(net_ip + val)))
+                # an address inside the pool could already be statically used by an interface
+                if new_address in self.interfaces:
+                    continue
                 self.range[val] = True
-                new_address = val
-                break
-        else:
-            raise IndexError("IP address range (%d) exhausted." % len(self.range))
-        net_ip = ipaddress.IPv4Address(str(self.net_ip))
-        return str(ipaddress.IPv4Address(str(net_ip + new_address)))
+                return new_address
+        raise IndexError("IP address range (%d) exhausted." % len(self.range))
 
     def translate_address(self, ip: str, nat_ip: str) -> str:
         """Return the NAT translated IP of an interface.
